@@ -376,24 +376,36 @@ func writePairwiseAlignment(p string, w int, cPair chan alignPair, cWriteDone ch
 	var err error
 
 	if p == "stdout" {
-		for AP := range cPair {
-			if !omitRef {
-				_, err = fmt.Fprintln(os.Stdout, ">"+AP.refname)
+		// the pairs arrive in the order in which the workers finish: write them in input order
+		outputMap := make(map[int]alignPair)
+		counter := 0
+		for arrived := range cPair {
+			outputMap[arrived.idx] = arrived
+			for {
+				AP, ok := outputMap[counter]
+				if !ok {
+					break
+				}
+				if !omitRef {
+					_, err = fmt.Fprintln(os.Stdout, ">"+AP.refname)
+					if err != nil {
+						cErr <- err
+					}
+					_, err = fmt.Fprint(os.Stdout, wrap(string(AP.ref), w))
+					if err != nil {
+						cErr <- err
+					}
+				}
+				_, err = fmt.Fprintln(os.Stdout, ">"+AP.queryname)
 				if err != nil {
 					cErr <- err
 				}
-				_, err = fmt.Fprint(os.Stdout, wrap(string(AP.ref), w))
+				_, err = fmt.Fprint(os.Stdout, wrap(string(AP.query), w))
 				if err != nil {
 					cErr <- err
 				}
-			}
-			_, err = fmt.Fprintln(os.Stdout, ">"+AP.queryname)
-			if err != nil {
-				cErr <- err
-			}
-			_, err = fmt.Fprint(os.Stdout, wrap(string(AP.query), w))
-			if err != nil {
-				cErr <- err
+				delete(outputMap, counter)
+				counter++
 			}
 		}
 	} else {
